@@ -58,11 +58,14 @@ Allowed(kinds, locals, dev) ==
 \* flipped padding byte changes nothing; so for a flip the contract only rules out what a decoder can
 \* rule out: an answer with other ROW COUNTS than the full one ("short"), and no answer at all.
 \* "garbled" = the full row count with other cell values.
+\* "flip_short" = a flip after which the payload still decodes, but to FEWER rows than its worker declared (e.g. a
+\* message header turned into an end-of-stream marker): as detectable as a cut at a message boundary, and judged like one.
 AllowedRec(kinds, locals, dev) ==
-  IF "flip" \in kinds
-  THEN IF MustErr(kinds \ {"flip"}, locals) THEN Allowed(kinds \ {"flip"}, locals, dev)
+  LET ks == (kinds \ {"flip_short"}) \cup (IF "flip_short" \in kinds THEN {"trunc_boundary"} ELSE {}) IN
+  IF "flip" \in ks
+  THEN IF MustErr(ks \ {"flip"}, locals) THEN Allowed(ks \ {"flip"}, locals, dev)
        ELSE {"err", "full", "garbled"}
-  ELSE Allowed(kinds, locals, dev)
+  ELSE Allowed(ks, locals, dev)
 
 \* named mutants of the coordinator (each must be rejected by the contract in some state)
 MutantNames == {"filter_ok", "retry_local", "http_empty", "ignore_decode", "skip_digest"}
